@@ -136,7 +136,9 @@ def _uses(e, names, tags=("u", "b", "t")):
 
 def pg_fragment(case):
     """PostgreSQL-dialect constructs that SQLite cannot execute are outside the proxy (DESIGN.md C02):
-    is_bad / is_inf compare with CAST('+infinity' AS DOUBLE PRECISION)"""
+    is_bad / is_inf compare with CAST('+infinity' AS DOUBLE PRECISION); convert_records control tables"""
+    if any(st[0] == "unpivot" for st in case["prog"]):
+        return False     # record-map control tables are written as parenthesised UNION ALL members, which SQLite cannot parse
     return not _uses(case["prog"], ("is_bad", "is_inf"))
 
 
